@@ -33,7 +33,7 @@ What each encoder does (fixed code):
 * slice/array: Slice of the element encodings (a nil slice is the empty Slice).
 * `map[string]T`: Map of the element encodings (a nil map is the empty Map).
 * struct: a Map built by `Set` per field in declaration order: named ⇒ alias ↦ encoding; omitempty ⇒ skipped
-  when `reflect.Value.IsZero`; inline ⇒ every pair of the field's (Map) encoding is `Set`; ignored ⇒ skipped.
+  when the encoding `Equal`s the encoding of the zero value (C16 fix; `IsZero` is only a shortcut for that); inline ⇒ every pair of the field's (Map) encoding is `Set`; ignored ⇒ skipped.
   (Go builds the inline child's Map first and copies its pairs in Range order; the model sets the child's
   fields into the same accumulator, which is the same dictionary.)
 * interface (`any`) value: nil ⇒ null, else the encoding of the dynamic value by its dynamic type.
@@ -43,12 +43,13 @@ What each decoder does (fixed code): see `leaves`, `decodeNamed`, `phase1`, `pha
 Types outside this universe (channels, funcs, custom marshalers other than the three above, `io.Reader`
 buffers, error values, non-string map keys, `*time.Time` – which takes the RFC 3339 text form) are not modelled.
 Conversions the round trip never uses are modelled only by their *guard* (which source kinds a leaf takes):
-string → number parsing other than decimal integers, number → string formatting and float → integer
-conversion answer `Err.other` (marked `-- unmodelled conversion`).
+string → number parsing other than decimal integers, number → string formatting and conversions from a float32
+source answer `Err.other` (marked `-- unmodelled conversion`).
 Core Lean only.
 -/
 import Uniflow.Model.Value
 import Uniflow.Model.Group
+import Uniflow.Model.CodecNum
 
 namespace Uniflow.Codec
 open Uniflow.Value
@@ -203,6 +204,26 @@ def durMs (ns : Int) : Int := if 0 ≤ ns then ns / 1000000 else -((-ns) / 10000
 
 /-! ## Encoding -/
 
+def VList.replicate : Nat → Val → VList
+  | 0, _ => .nil
+  | n + 1, x => .cons x (VList.replicate n x)
+
+mutual
+  /-- the encoding of the zero value of a type (`child.Encode(reflect.Zero(field.Type).Interface())`), in closed
+  form; `Proofs/Codec.lean: zeroDoc_eq` proves `zeroDoc t = encode t (zero t)`. -/
+  def zeroDoc : GoType → Val
+    | .int w => .int w 0 | .uint w => .uint w 0 | .f32 => .f32 0 | .f64 => .f64 0 | .str => .str [] | .bool => .bool false
+    | .bytes => .bin [] | .barr n => .bin (List.replicate n 0) | .time => .int .w64 zeroTimeMs | .dur => .int .w64 0
+    | .uuid => .str (uuidText (List.replicate 16 0)) | .any => .nil | .ptr _ => .nil
+    | .slice _ => .slice .nil | .arr n t => .slice (VList.replicate n (zeroDoc t)) | .map _ => .map .nil
+    | .struct fs => .map (zeroDocF fs .nil)
+  def zeroDocF : Fields → PList → PList
+    | .nil, acc => acc
+    | .cons .named a t rest, acc => zeroDocF rest (mapSet acc a (zeroDoc t))
+    | .cons .inline _ (.struct fs') rest, acc => zeroDocF rest (zeroDocF fs' acc)
+    | .cons _ _ _ rest, acc => zeroDocF rest acc          -- omitempty: dropped; ignored; inline nil map: nothing
+end
+
 mutual
   /-- `Encoder.Encode` for a value of static type `t` -/
   def encode : GoType → GoVal → Val
@@ -240,7 +261,11 @@ mutual
   def encodeFields : Fields → GoVals → PList → PList
     | .cons .named a t rest, .cons v vs, acc => encodeFields rest vs (mapSet acc a (encode t v))
     | .cons .omit a t rest, .cons v vs, acc =>
-      if isZero v then encodeFields rest vs acc else encodeFields rest vs (mapSet acc a (encode t v))
+      -- omitempty (C16 fix): skipped when the encoding `Equal`s the encoding of the field type's zero value. (Go first
+      -- tests `reflect.Value.IsZero` as a shortcut; a zero value encodes like the zero value, so the shortcut never
+      -- changes the outcome – `Proofs/Codec.lean: isZero_subsumed`, and the correspondence check exercises it.)
+      if equal (encode t v) (zeroDoc t) then encodeFields rest vs acc
+      else encodeFields rest vs (mapSet acc a (encode t v))
     | .cons .ignored _ _ rest, .cons _ vs, acc => encodeFields rest vs acc
     | .cons .inline _ (.struct fs') rest, .cons (.struct vs') vs, acc =>
       encodeFields rest vs (encodeFields fs' vs' acc)
@@ -407,7 +432,10 @@ def leavesInt (w : Width) : List Leaf :=
                    | none => .other 0)
       | _ => .unsupported,
     fun x => match x with
-      | .f32 _ => .other 1 | .f64 _ => .other 1          -- unmodelled conversion (float → integer)
+      | .f64 b => (match intOfF64 b with           -- `T(s.Float())`: truncation; out of int64 range / NaN: implementation defined
+                   | some i => if inInt64 i then .ok (.int (wrapInt w i)) else .other 1
+                   | none => .other 1)
+      | .f32 _ => .other 1                          -- unmodelled conversion (float32 source)
       | _ => .unsupported,
     fun x => match x with | .int _ v => .ok (.int (wrapInt w v)) | _ => .unsupported,
     fun x => match x with | .uint _ v => .ok (.int (wrapInt w v)) | _ => .unsupported ]
@@ -420,7 +448,10 @@ def leavesUint (w : Width) : List Leaf :=
                    | none => .other 0)
       | _ => .unsupported,
     fun x => match x with
-      | .f32 _ => .other 1 | .f64 _ => .other 1          -- unmodelled conversion
+      | .f64 b => (match intOfF64 b with           -- negative / ≥ 2^63 / NaN: implementation defined
+                   | some i => if 0 ≤ i ∧ inInt64 i then .ok (.uint (wrapUint w i)) else .other 1
+                   | none => .other 1)
+      | .f32 _ => .other 1                          -- unmodelled conversion (float32 source)
       | _ => .unsupported,
     fun x => match x with | .int _ v => .ok (.uint (wrapUint w v)) | _ => .unsupported,
     fun x => match x with | .uint _ v => .ok (.uint (wrapUint w v)) | _ => .unsupported ]
@@ -470,7 +501,10 @@ def leavesTime : List Leaf :=
       | .int _ v => .ok (.time v 0)                        -- `time.UnixMilli(v).UTC()`
       | .uint _ _ => .unsupported                          -- `Integer` is the signed family only
       | .str _ => .other 1                                 -- unmodelled conversion (RFC 3339)
-      | .f32 _ => .other 1 | .f64 _ => .other 1            -- unmodelled conversion
+      | .f64 b => (match intOfF64 b with                   -- `time.UnixMilli(int64(f)).UTC()`
+                   | some i => if inInt64 i then .ok (.time i 0) else .other 1
+                   | none => .other 1)
+      | .f32 _ => .other 1                                 -- unmodelled conversion (float32 source)
       | _ => .unsupported ]
 
 def durOfMs (ms : Int) : Int := wrapInt .w64 (ms * 1000000)
@@ -479,7 +513,10 @@ def leavesDur : List Leaf :=
   [ fun x => match x with
       | .int _ v => .ok (.dur (durOfMs v))                 -- `time.Millisecond * Duration(v)` (wraps like Go)
       | .str _ => .other 1                                 -- unmodelled conversion (ParseDuration)
-      | .f32 _ => .other 1 | .f64 _ => .other 1
+      | .f64 b => (match intOfF64 b with                   -- `time.Millisecond * time.Duration(f)`
+                   | some i => if inInt64 i then .ok (.dur (durOfMs i)) else .other 1
+                   | none => .other 1)
+      | .f32 _ => .other 1                                 -- unmodelled conversion (float32 source)
       | _ => .unsupported,
     fun x => match x with | .uint _ v => .ok (.dur (wrapInt .w64 v)) | _ => .unsupported ]
 
@@ -494,13 +531,19 @@ def leavesUuid : List Leaf :=
 
 /-- `*[]byte`: string (base64), binary, (buffer); the slice decoder is appended in `decode` -/
 def leavesBytes : List Leaf :=
-  [ fun x => match x with | .str _ => .other 1 | _ => .unsupported,             -- unmodelled conversion (base64)
+  [ fun x => match x with
+      | .str s => (match b64dec s with | some bs => .ok (.bytes bs) | none => .other 1)   -- base64 text (the JSON form)
+      | _ => .unsupported,
     fun x => match x with | .bin bs => .ok (.bytes bs) | _ => .unsupported ]
 
 /-- `*[n]byte`: string (base64, added by a C16 fix), binary (`reflect.Copy` after `Convert`: **panics** when the
 binary is shorter than the array), (buffer); the slice decoder is appended in `decode` -/
 def leavesBarr (n : Nat) : List Leaf :=
-  [ fun x => match x with | .str _ => .other 1 | _ => .unsupported,             -- unmodelled conversion (base64)
+  [ fun x => match x with
+      | .str s => (match b64dec s with                                       -- base64 text, then `reflect.Copy`
+                   | some bs => .ok (.barr ((bs ++ List.replicate n 0).take n))
+                   | none => .other 1)
+      | _ => .unsupported,
     fun x => match x with
       | .bin bs => if bs.length < n then .other 2 else .ok (.barr (bs.take n))
       | _ => .unsupported ]
@@ -727,5 +770,74 @@ end
 def HasType (v : GoVal) (t : GoType) : Prop := t.wf = true ∧ hasType t v = true
 
 instance (v : GoVal) (t : GoType) : Decidable (HasType v t) := by unfold HasType; exact inferInstance
+
+
+/-! ## The normal form the codec maps a value to
+
+`canon t v` is what `decode t (encode t v)` returns for a type without `any` (`closed t`) – proved as
+`C16.roundtrip_closed`. The only normalisations:
+* a nil slice / nil map / nil `[]byte` becomes the empty one (a Go map has no order: the model lists its pairs in
+  Range order, `kvInsert`);
+* a pointer whose pointee encodes to null (a chain of pointers ending in nil) becomes the nil pointer;
+* `time.Time` keeps its millisecond instant in UTC, `time.Duration` its whole milliseconds;
+* an ignored (`json:"-"`) field becomes the zero value;
+* an omitempty field whose encoding equals the zero value's encoding becomes the zero value (so −0 becomes +0, an
+  empty slice the nil slice, a sub-millisecond duration 0). -/
+
+def isNilDoc : Val → Bool
+  | .nil => true
+  | _ => false
+
+/-- `SetMapIndex` in Range order of the keys (mirrors `mapSet`) -/
+def kvInsert (k : Bytes) (w : GoVal) : GoKVs → GoKVs
+  | .nil => .cons k w .nil
+  | .cons k' w' rest =>
+    if k = k' then .cons k' w rest
+    else if klt k k' then .cons k w (.cons k' w' rest)
+    else .cons k' w' (kvInsert k w rest)
+
+mutual
+  def canon : GoType → GoVal → GoVal
+    | .bytes, .bytesNil => .bytes []
+    | .time, .time ms _ => .time ms 0
+    | .dur, .dur ns => .dur (durOfMs (durMs ns))
+    | .ptr t, .ptr v => if isNilDoc (encode t v) then .ptrNil else .ptr (canon t v)
+    | .slice _, .sliceNil => .slice .nil
+    | .slice t, .slice xs => .slice (canonL t xs)
+    | .arr _ t, .arr xs => .arr (canonL t xs)
+    | .map _, .mapNil => .map .nil
+    | .map t, .map kvs => .map (canonKV t kvs .nil)
+    | .struct fs, .struct vs => .struct (canonF fs vs)
+    | _, v => v
+  def canonL (t : GoType) : GoVals → GoVals
+    | .nil => .nil
+    | .cons v vs => .cons (canon t v) (canonL t vs)
+  def canonKV (t : GoType) : GoKVs → GoKVs → GoKVs
+    | .nil, acc => acc
+    | .cons k v kvs, acc => canonKV t kvs (kvInsert k (canon t v) acc)
+  def canonF : Fields → GoVals → GoVals
+    | .cons .named _ t rest, .cons v vs => .cons (canon t v) (canonF rest vs)
+    | .cons .omit _ t rest, .cons v vs =>
+      .cons (if equal (encode t v) (zeroDoc t) then zero t else canon t v) (canonF rest vs)
+    | .cons .ignored _ t rest, .cons _ vs => .cons (zero t) (canonF rest vs)
+    | .cons .inline _ (.struct fs') rest, .cons (.struct vs') vs => .cons (.struct (canonF fs' vs')) (canonF rest vs)
+    | .cons .inline _ (.map t) rest, .cons (.map kvs) vs => .cons (.map (canonKV t kvs .nil)) (canonF rest vs)
+    | .cons .inline _ (.map _) rest, .cons _ vs => .cons (.map .nil) (canonF rest vs)
+    | .cons _ _ _ rest, .cons v vs => .cons v (canonF rest vs)
+    | _, _ => .nil
+end
+
+mutual
+  /-- no `any` anywhere (ignored fields do not count: they come back zero) -/
+  def closed : GoType → Bool
+    | .any => false
+    | .ptr t => closed t | .slice t => closed t | .arr _ t => closed t | .map t => closed t
+    | .struct fs => closedF fs
+    | _ => true
+  def closedF : Fields → Bool
+    | .nil => true
+    | .cons .ignored _ _ rest => closedF rest
+    | .cons _ _ t rest => closed t && closedF rest
+end
 
 end Uniflow.Codec
